@@ -45,8 +45,14 @@ restate C01_vm_refines_sld_call := vm_refines_sld_call
     `negate` calls `G` in a trampoline of its own — `force` on an empty stack, related to the
     recursive search by `force_dfsG_conv` and `vm_nested_well_scoped` —, reference:
     `(call(G) -> fail ; true)`).
+    Disjunction `;`/2 at the top level of a clause body (one compiled clause per alternative —
+    `altBodies` — against the reference's `splitClause`), of the query and of a called goal.
     Side condition `CallsOK` as for `call/1` (for `\\+ G` also on the goal `G` and, recursively, on
-    the nested search). -/
+    the nested search).
+    OPEN (see `VmRefinesSldCtlFullStatement`): a non-if-then-else disjunction as a goal INSIDE a
+    conjunction, `','/2` as a predicate, call/N for N ≥ 2.
+    FINDING: for call/N with N ≥ 9 the VM model answers where the reference (and the Go engine, which
+    defines call/1..call/8 only) raises existence_error(procedure, call/N). -/
 restate C01_vm_refines_sld_ctl := vm_refines_sld_ctl
 
 end PrologVerif.C01
